@@ -196,3 +196,11 @@ Section Check.
     | None => ("0" ++ b2c dom ++ b2c thm)%string
     end.
 End Check.
+
+(** DataFrames the chain model does not compile (joins, aggregation, set operations): only the relation the
+    property demands between every observation and the implementation's own collect() is computed. *)
+Definition check_opaque (k : ccase) : string :=
+  match k_collect k with
+  | Some (cn, cr) => String.concat "" (map (fun o => b2c (spec_ok (k_mode k) cn cr o)) (k_obs k))
+  | None => ""%string
+  end.
